@@ -16,7 +16,7 @@ const sstlsPkg = "lib/sstls"
 
 func init() {
 	register("C05", &propDef{
-		Run: checkC05,
+		Run:         checkC05,
 		Explanation: "Static decision of the value-flow clauses of C05. (1) In sstls.Listen the certificate value whose fingerprint is stored in Listener.Fingerprint is the very SSA value placed as the only element of tls.Config.Certificates handed to tls.Listen, and the config sets no certificate-selection callback; Listener.Fingerprint is written nowhere else. (2) Every store to tls.Certificate.Leaf stores x509.ParseCertificate of the same certificate's own first DER block. (3) The fingerprint function computes base64.StdEncoding(sha256(MarshalPKIXPublicKey(leaf.PublicKey))) — the definition of curl's sha256// pin — and simpleshell's verifier uses the same serialisation, hash and alphabet. (4) Server.l is written only in New from Listen's result and is the listener http.Server.Serve is given; every printf-style call whose constant format contains --pinnedpubkey takes the pin argument from s.l.Fingerprint, TemplateParams.PubkeyFP is stored from the same field unchanged, and the default template puts it after sha256// in every curl command. (5) The port of printed one-liners flows from s.l.Addr(); a user-supplied callback address keeps its own port as decided by net.SplitHostPort. curl's own comparison and custom templates are outside.",
 		Assumptions: []string{"crypto/tls serves Certificates[0] when no selection callback is set", "curl --pinnedpubkey sha256// is base64(SHA-256(DER SubjectPublicKeyInfo))"},
 	})
